@@ -18,3 +18,82 @@ pub fn esh_reference(grad: &[f64], mom: &[f64], step: f64) -> (Vec<f64>, f64) {
     out.iter_mut().for_each(|x| *x /= nrm);
     (out, (n as f64 - 1.0) * denom.ln())
 }
+
+/// Nesterov dual averaging as published (Hoffman & Gelman 2014, with the log-step clamp and the
+/// weighted average of the iterates documented by nuts-rs): R-dualavg.
+#[derive(Clone, Debug)]
+pub struct RefDualAverage {
+    pub log_step: f64,
+    pub log_step_bar: f64,
+    pub hbar: f64,
+    pub mu: f64,
+    pub count: u64,
+    pub k: f64,
+    pub t0: f64,
+    pub gamma: f64,
+    pub max_step: f64,
+}
+
+impl RefDualAverage {
+    pub fn new(k: f64, t0: f64, gamma: f64, max_step: f64, initial_step: f64) -> Self {
+        RefDualAverage {
+            log_step: initial_step.ln(),
+            log_step_bar: initial_step.ln(),
+            hbar: 0.0,
+            mu: (10.0 * initial_step).ln(),
+            count: 1,
+            k,
+            t0,
+            gamma,
+            max_step,
+        }
+    }
+    pub fn advance(&mut self, accept: f64, target: f64) {
+        let m = self.count as f64;
+        let w = 1.0 / (m + self.t0);
+        self.hbar = (1.0 - w) * self.hbar + w * (target - accept);
+        let x = self.mu - m.sqrt() / self.gamma * self.hbar;
+        self.log_step = x.min(self.max_step.ln());
+        let eta = m.powf(-self.k);
+        self.log_step_bar = eta * self.log_step + (1.0 - eta) * self.log_step_bar;
+        self.count += 1;
+    }
+    pub fn step(&self) -> f64 {
+        self.log_step.exp()
+    }
+    pub fn step_bar(&self) -> f64 {
+        self.log_step_bar.exp()
+    }
+}
+
+/// Adam on the log step size, "gradient" = accept - target (R-adam).
+#[derive(Clone, Debug)]
+pub struct RefAdam {
+    pub log_step: f64,
+    pub m: f64,
+    pub v: f64,
+    pub t: u64,
+    pub beta1: f64,
+    pub beta2: f64,
+    pub eps: f64,
+    pub lr: f64,
+}
+
+impl RefAdam {
+    pub fn new(beta1: f64, beta2: f64, eps: f64, lr: f64, initial_step: f64) -> Self {
+        RefAdam { log_step: initial_step.ln(), m: 0.0, v: 0.0, t: 0, beta1, beta2, eps, lr }
+    }
+    pub fn advance(&mut self, accept: f64, target: f64) -> f64 {
+        let g = accept - target;
+        self.t += 1;
+        self.m = self.beta1 * self.m + (1.0 - self.beta1) * g;
+        self.v = self.beta2 * self.v + (1.0 - self.beta2) * g * g;
+        let mh = self.m / (1.0 - self.beta1.powi(self.t as i32));
+        let vh = self.v / (1.0 - self.beta2.powi(self.t as i32));
+        self.log_step += self.lr * mh / (vh.sqrt() + self.eps);
+        mh
+    }
+    pub fn step(&self) -> f64 {
+        self.log_step.exp()
+    }
+}
